@@ -40,6 +40,14 @@ def ref_fn(r):
     Tmax = gr.KAPPA * np.abs(T).max(axis=(0, 1))
     out['_hamscale'] = (np.abs(sp['RicciS']) + b['Ktrace'] ** 2 + np.abs(KK)
                         + 2 * Tmax + 2 * abs(r.Lambda))
+    gK = np.abs(b['K']).max(axis=(0, 1))
+    out['_Kmax'] = gK
+    # magnitude of the terms that build d_t K (their sum may nearly cancel)
+    out['_dtKscale'] = (np.abs(r.alpha.h[1:, 1:]).max(axis=(0, 1))
+                        + np.abs(sp['Gamma']).max(axis=(0, 1, 2))
+                        * np.abs(r.alpha.g[1:]).max(axis=0)
+                        + np.abs(r.alpha.v) * (9 * gK ** 2 + Tmax
+                                               + abs(r.Lambda)))
     out['_momscale'] = (np.abs(b['dK']).max(axis=(0, 1, 2))
                         + Tmax
                         + np.abs(b['K']).max(axis=(0, 1))
@@ -69,6 +77,11 @@ def case(task):
                     # and the size of the terms that build it
                     sc = max(rmax, 1e-2 if (k in DTKEYS or k ==
                                             's_Gamma_bssnok') else 1e-12)
+                    if k == 'dtKtrace':
+                        sc = max(sc, float(ref['_dtKscale'].max()))
+                    if k in ('Adown3_bssnok', 'Ktrace'):
+                        # A = 0 exactly for pure-trace K: judge on |K|
+                        sc = max(sc, 1e-3 * float(ref['_Kmax'].max()))
                     res['err'].setdefault(k, []).append(
                         gc.err(val, ref[k], sc))
                     res['refmax'][k] = rmax
